@@ -111,28 +111,4 @@ func VerifC10Rules() {
 	v.Reach("end")
 }
 
-// c10AddedRole: the role the added peer ends with (an AddLearner step followed by a promotion of the
-// same store adds a voter).
-func c10AddedRole(op *operator.Operator, c c10Change) metapb.PeerRole {
-	for i := c.idx + 1; i < op.Len(); i++ {
-		switch s := op.Step(i).(type) {
-		case operator.PromoteLearner:
-			if s.ToStore == c.store {
-				return metapb.PeerRole_Voter
-			}
-		case operator.ChangePeerV2Enter:
-			for _, p := range s.PromoteLearners {
-				if p.ToStore == c.store {
-					return metapb.PeerRole_Voter
-				}
-			}
-		}
-	}
-	switch op.Step(c.idx).(type) {
-	case operator.AddPeer, operator.AddLightPeer:
-		return metapb.PeerRole_Voter
-	}
-	return metapb.PeerRole_Learner
-}
-
 var _ = core.IsLearner
